@@ -547,19 +547,30 @@ func (in *Interp) convert(v Value, from, to types.Type) Value {
 	return v
 }
 
-// intResult discharges the no-overflow obligation of an int arithmetic result.
+// intResult gives an int/int64 arithmetic result its machine meaning: when the
+// mathematical result provably fits 64 bits it is the result, otherwise the
+// two's complement wrap-around is applied explicitly.
 func (in *Interp) intResult(r *Term) *Term {
-	if r.IsConst() || r.fitsInt64() {
-		if r.IsConst() && (r.c.Cmp(minInt64) < 0 || r.c.Cmp(maxInt64) > 0) {
-			in.unsupported("constant int overflow")
+	two63 := new(big.Int).Lsh(big.NewInt(1), 63)
+	two64 := new(big.Int).Lsh(big.NewInt(1), 64)
+	wrap := func(x *Term) *Term {
+		return IArith("-", IArith("mod", IArith("+", x, IntBig(two63)), IntBig(two64)), IntBig(two63))
+	}
+	if r.IsConst() {
+		if r.c.Cmp(minInt64) < 0 || r.c.Cmp(maxInt64) > 0 {
+			return wrap(r)
 		}
 		return r
 	}
-	ok := And(ICmp("<=", IntBig(minInt64), r), ICmp("<=", r, IntBig(maxInt64)))
-	if !in.guard(ok) {
-		in.unsupported("int arithmetic may wrap around (outside the Int encoding)")
+	if r.fitsInt64() {
+		return r
 	}
-	return r
+	ok := And(ICmp("<=", IntBig(minInt64), r), ICmp("<=", r, IntBig(maxInt64)))
+	if in.sol.Check(in.pc, Not(ok)) == "unsat" {
+		return setBounds(r, minInt64, maxInt64)
+	}
+	w := wrap(r)
+	return setBounds(w, minInt64, maxInt64)
 }
 
 func pow2(k int) *Term { return IntBig(new(big.Int).Lsh(big.NewInt(1), uint(k))) }
